@@ -104,10 +104,16 @@ FAMILIES = [
     ["$ID", "$LETTER"],
     ["$WS", '" "'] if False else ["$WS", "/[ ]+/"],
     ["$STRING", "$COMMENT", "$NUMBER", "$ID"],
+    # patterns matching the empty text: the start state is accepting
+    ["/a*/", "/b+/"],
+    ["/a*/", "/b*/"],
+    ["/(bc)?/", '"x"', "/[0-9]*/"],
+    ["/a*/", '"a"', "/[a-b]*/"],
+    ["/x?/", "/y?/", '"xy"'],
 ]
 
 RAND_PATTERNS = ["/[a-z]+/", "/[a-c]+/", "/[b-d]+/", "/[0-9]+/", "/[0-9a-f]+/", "/a*b/", "/ab*/", "/(ab)+/", "/a|b|ab/", "/[a-z][a-z0-9]*/",
-                 "/x?y/", "/if|else/", "/[^a]b/", "/\\d+/", "/\\w+/", "/a{2,3}/", "$ID", "$NUMBER", "$LETTER", "$DIGIT"]
+                 "/x?y/", "/a*/", "/[0-9]*/", "/(ab)?/", "/if|else/", "/[^a]b/", "/\\d+/", "/\\w+/", "/a{2,3}/", "$ID", "$NUMBER", "$LETTER", "$DIGIT"]
 RAND_LITERALS = ['"if"', '"else"', '"ab"', '"a"', '"b"', '"abc"', '"0"', '"00"', '"xy"', '"y"', '"aa"', '"aaa"', '"+"', '"a\\"b"']
 
 
